@@ -131,6 +131,6 @@ theorem gen_filter_flag_appends :
     Gen.OptionsTbl.filterFlagSet =
       ["arr := strings.Split(value, \",\")",
        "for _, v := range arr { v64, err := strconv.ParseUint(v, 10, 32) if err != nil { return err } *a = append(*a, uint32(v64)) }",
-       "return nil"] := by decide
+       "return nil"] := by decide +kernel
 
 end Vflow.C18
